@@ -1,4 +1,5 @@
 import Vanguard.Lemmas.Source
+import Vanguard.Lemmas.Chunking
 /-!
   C08 — Results do not depend on how bytes are split across reads, writes, flushes.
 
@@ -7,6 +8,11 @@ import Vanguard.Lemmas.Source
   Proved here, for *every* chunking: `io.ReadFull`/`io.CopyN` (`readExactly`, the primitive with
   which every envelope prefix and every enveloped message is read) return the same bytes, the same
   error and leave the same bytes unread.
+  One level up, also for every chunking: the transcoder's message reader (`readRequestMessage`, enveloped
+  clients; `unenveloped_message_chunking_independent` for Connect unary and REST bodies read under the
+  size limit) cuts the same message, compressed flag or error out of the same bytes and leaves the same
+  bytes (`enveloped_message_chunking_independent`), hence the whole **sequence of request messages
+  and its final condition** do not depend on the segmentation (`message_sequence_chunking_independent`).
   Partial: the corresponding statement for the whole reader/writer adapters (`erRead`, `trRead`,
   `ewLoop`, `twLoop`) is not yet a theorem; it is checked on the implementation *and* on the model by
   the `chunk` stream, which runs every scenario under its coarsest segmentation and under a random
@@ -53,5 +59,39 @@ theorem readExactly_chunking_independent (s1 s2 : Source) (k : Nat) (acc : Bytes
 example :
     (readExactly 20 { chunks := [[1, 2, 3, 4, 5]], ending := .eof } 3 []).1 =
     (readExactly 20 { chunks := [[1], [2], [], [3], [4], [5]], ending := .eof } 3 []).1 := by decide
+
+/-- **One enveloped message, any segmentation** (same bytes, same ending; everything else equal). -/
+theorem enveloped_message_chunking_independent (w : World) (a b : St) (h : StEq a b) (ce : Enveloper)
+    (hce : a.op.clientEnveloper = some ce) :
+    (readRequestMessage w a false).1 = (readRequestMessage w b false).1 ∧
+    (resultOk (readRequestMessage w a false).1 →
+      StEq (readRequestMessage w a false).2.1 (readRequestMessage w b false).2.1 ∧
+      (readRequestMessage w a false).2.1.op = a.op) :=
+  readRequestMessage_enveloped_det w a b h ce hce
+
+/-- **The sequence of request messages does not depend on the segmentation.** -/
+theorem message_sequence_chunking_independent (w : World) (ce : Enveloper) (n : Nat) (a b : St) (h : StEq a b)
+    (hce : a.op.clientEnveloper = some ce) : readMessages w n a = readMessages w n b :=
+  readMessages_det w ce n a b h hce
+
+/-- **The one message of a client without envelopes** (Connect unary, REST): the whole body or the
+    same error (too long for the limit, cut, empty), whatever the segmentation. -/
+theorem unenveloped_message_chunking_independent (w : World) (a b : St) (h : StEq a b)
+    (hce : a.op.clientEnveloper = none) :
+    (readRequestMessage w a false).1 = (readRequestMessage w b false).1 :=
+  readRequestMessage_unenveloped_det w a b h hce
+
+/-- Reading a whole body under a size limit: everything, or the size error, or the cut - decided
+    by the bytes and the way the body ends alone. -/
+theorem copy_all_limited_spec (w : World) (limit fuel : Nat) (st : St) (hf : st.src.data.length + 1 < fuel) :
+    (copyAllLimited w false limit fuel st 0 []).2.1 = copySpecErr limit st.src.data.length st.src.ending ∧
+    (st.src.data.length ≤ limit → (copyAllLimited w false limit fuel st 0 []).1 = st.src.data) := by
+  have := copyAllLimited_spec w limit fuel st 0 [] hf (Nat.zero_le _)
+  simpa using this
+
+/-- Non-vacuity of `StEq`: the same seven bytes in one piece and in five pieces (one of them empty). -/
+example (o : Op) : StEq { op := o, src := { chunks := [[0, 0, 0, 0, 2, 7, 8]], ending := .eof }, sink := {} }
+                        { op := o, src := { chunks := [[0], [0, 0], [], [0, 2, 7], [8]], ending := .eof }, sink := {} } :=
+  ⟨rfl, rfl, rfl, rfl, ⟨rfl, rfl⟩⟩
 
 end Vanguard.C08
